@@ -34,8 +34,22 @@ impl Timestamp {
     let offset_date_time = OffsetDateTime::parse(input, &Rfc3339)
       .map_err(time::Error::from)
       .map_err(Error::InvalidTimestamp)?
-      .to_offset(UtcOffset::UTC);
-    Ok(Timestamp(truncate_fractional_seconds(offset_date_time)))
+      .checked_to_offset(UtcOffset::UTC)
+      .ok_or_else(Self::invalid_year_error)?;
+    let offset_date_time = truncate_fractional_seconds(offset_date_time);
+
+    // A non-zero offset can move an in-range local date-time outside of 0000AD - 9999AD;
+    // reject it here like `from_unix` does, to prevent conversion errors in to_rfc3339().
+    if !(0..10_000).contains(&offset_date_time.year()) {
+      return Err(Self::invalid_year_error());
+    }
+    Ok(Timestamp(offset_date_time))
+  }
+
+  fn invalid_year_error() -> Error {
+    Error::InvalidTimestamp(time::error::Error::Format(time::error::Format::InvalidComponent(
+      "invalid year",
+    )))
   }
 
   /// Creates a new `Timestamp` with the current date and time, normalized to UTC+00:00 with
